@@ -11,6 +11,10 @@ impl ActTask for Branch {
         task.set_emit_disabled(true);
         if !self.needs.is_empty() {
             task.set_state(TaskState::Pending);
+            // the needed sibling may have finished already: nothing reviews this branch again
+            if task.is_ready() {
+                task.set_state(TaskState::Running);
+            }
             return Ok(());
         }
 
@@ -36,6 +40,11 @@ impl ActTask for Branch {
 
                 if branch_count > 1 {
                     task.set_state(TaskState::Pending);
+                    // the siblings may be decided already (else declared last):
+                    // nothing reviews this branch again
+                    if task.is_ready() {
+                        task.set_state(TaskState::Running);
+                    }
                 }
 
                 return Ok(());
